@@ -49,6 +49,8 @@ type stopSite struct {
 	Kind       string    `json:"kind"`
 	Alts       []siteAlt `json:"alts"`
 	HasDefault bool      `json:"default"`
+
+	pos token.Pos
 }
 
 type stopEv struct {
@@ -101,7 +103,7 @@ func sitesOfFunc(pi *pkgInfo, rel string, fd *ast.FuncDecl) []stopSite {
 	}
 	comm := map[ast.Node]bool{}
 	add := func(kind string, pos token.Pos, alts []siteAlt, def bool) {
-		out = append(out, stopSite{Fn: fn, Recv: recv, File: rel, Line: fset.Position(pos).Line, Kind: kind, Alts: alts, HasDefault: def})
+		out = append(out, stopSite{Fn: fn, Recv: recv, File: rel, Line: fset.Position(pos).Line, Kind: kind, Alts: alts, HasDefault: def, pos: pos})
 	}
 	recvOf := func(n ast.Node) (ast.Expr, bool) {
 		var e ast.Expr
@@ -238,6 +240,10 @@ func extractStopSites() {
 	closedSet := map[string]bool{}
 	var wgAdds []wgAdd
 	var wgDones []wgDone
+	var makes []chanMake
+	var cbs []callbackInfo
+	var cbCallees []cbCallee
+	cbDone := map[string]bool{}
 	for _, rel := range stopFiles {
 		dir, base := splitRel(rel)
 		pi := loadPkg(dir)
@@ -249,13 +255,29 @@ func extractStopSites() {
 			fail("%s: file is missing (C17 anchor)", rel)
 			continue
 		}
+		if !cbDone[dir] {
+			// per-response callbacks of the work manager registered anywhere in this package
+			cbDone[dir] = true
+			c, ce := workerCallbacksOf(pi)
+			cbs, cbCallees = append(cbs, c...), append(cbCallees, ce...)
+		}
 		nStop := 0
 		for _, d := range f.Decls {
 			fd, ok := d.(*ast.FuncDecl)
 			if !ok || fd.Body == nil {
 				continue
 			}
-			sites = append(sites, sitesOfFunc(pi, rel, fd)...)
+			for _, s := range sitesOfFunc(pi, rel, fd) {
+				// a site inside a callback literal runs on a worker goroutine, not on the goroutine of the function
+				// that registers the callback
+				for _, cb := range cbs {
+					if cb.lit != nil && cb.encl == fd && s.pos >= cb.lit.Pos() && s.pos < cb.lit.End() {
+						s.Fn = cb.Fn
+					}
+				}
+				sites = append(sites, s)
+			}
+			makes = append(makes, chanMakesOfFunc(pi, rel, fd)...)
 			as, ds := waitGroupsOfFunc(pi, rel, fd)
 			wgAdds, wgDones = append(wgAdds, as...), append(wgDones, ds...)
 			if isStopName(fd.Name.Name) && fd.Recv != nil {
@@ -321,7 +343,38 @@ func extractStopSites() {
 	for _, d := range wgDones {
 		wds = append(wds, fmt.Sprintf("  ⟨%s, %s, %s, %d⟩", in.ref(d.Fn), in.ref(d.Wg), lq(d.File), d.Line))
 	}
+	var mks []string
+	for _, m := range makes {
+		var fl []string
+		for _, f := range m.Flows {
+			fl = append(fl, in.ref(f))
+		}
+		mks = append(mks, fmt.Sprintf("  ⟨%s, %s, %s, [%s], %s, %s, %d⟩", in.ref(m.Fn), in.ref(m.Name), lbool(m.Field), strings.Join(fl, ", "), lq(m.Cap), lq(m.File), m.Line))
+	}
+	var cbNames []string
+	cbSeen := map[string]bool{}
+	for _, cb := range cbs {
+		if !cbSeen[cb.Fn] {
+			cbSeen[cb.Fn] = true
+			cbNames = append(cbNames, cb.Fn)
+		}
+	}
+	sort.Strings(cbNames)
+	var cbRefs, cbCalleeRows []string
+	for _, n := range cbNames {
+		cbRefs = append(cbRefs, in.ref(n))
+	}
+	sort.SliceStable(cbCallees, func(i, j int) bool {
+		if cbCallees[i].Callback != cbCallees[j].Callback {
+			return cbCallees[i].Callback < cbCallees[j].Callback
+		}
+		return cbCallees[i].Callee < cbCallees[j].Callee
+	})
+	for _, c := range cbCallees {
+		cbCalleeRows = append(cbCalleeRows, fmt.Sprintf("(%s, %s)", in.ref(c.Callback), in.ref(c.Callee)))
+	}
 	in.emit(l)
+	l.sb.WriteString("/-- `name := make(chan T, cap)` (or `F: make(chan T, cap)` in a composite literal) in `fn`; `field`: `name` is a struct field (the make is the value of a keyed composite-literal entry), else a local / an expression; `flows`: the struct fields a local channel is stored in by `fn`; `cap` in the canonical spelling of extract/chanmakes.go (\"0\" = unbuffered) -/\nstructure ChanMake where\n  fn : Nat\n  name : Nat\n  field : Bool\n  flows : List Nat\n  cap : String\n  file : String\n  line : Nat\n  deriving Repr\n\n")
 	l.sb.WriteString("/-- `wg.Add(count)` in `fn`; `release`: go-defer | loop-go-defer | go-done | timer-defer | none (see extract/waitgroups.go) -/\nstructure WgAdd where\n  fn : Nat\n  wg : Nat\n  count : String\n  release : String\n  file : String\n  line : Nat\n  deriving Repr\n\n")
 	l.sb.WriteString("/-- a `wg.Done()` that is not the top-level `defer` of a goroutine's function: an explicit hand-back on some path -/\nstructure WgDone where\n  fn : Nat\n  wg : Nat\n  file : String\n  line : Nat\n  deriving Repr\n\n")
 	l.sb.WriteString("structure Alt where\n  send : Bool\n  chan : Nat\n  deriving Repr, DecidableEq\n\n")
@@ -335,7 +388,13 @@ func extractStopSites() {
 	l.def("wgAdds", "List WgAdd", "[\n"+strings.Join(was, ",\n")+"]", "every WaitGroup.Add of the shutdown-relevant files and how its slot is released")
 	l.def("wgDones", "List WgDone", "[\n"+strings.Join(wds, ",\n")+"]", "explicit WaitGroup.Done calls (not the top-level defer of a goroutine)")
 	l.def("stopClosed", "List Nat", "["+strings.Join(closedRefs, ", ")+"]", "channels closed by some Stop method")
-	facts["stopsites"] = map[string]any{"wgAdds": wgAdds, "wgDones": wgDones, "sites": sites, "stopEvents": events, "chainServiceStop": csStop, "stopClosed": closed}
+	l.def("chanMakes", "List ChanMake", "[\n"+strings.Join(mks, ",\n")+"]", "every make(chan ...) of the shutdown-relevant files with its canonical capacity")
+	l.def("workerCallbacks", "List Nat", "["+strings.Join(cbRefs, ", ")+"]",
+		"functions registered as HandleResp of a query.Request: they run synchronously on a work-manager worker goroutine")
+	l.def("workerCallbackCallees", "List (Nat × Nat)", "["+strings.Join(cbCalleeRows, ", ")+"]",
+		"(callback, repo function it calls directly): the callee runs on a worker goroutine too")
+	facts["stopsites"] = map[string]any{"wgAdds": wgAdds, "wgDones": wgDones, "sites": sites, "stopEvents": events, "chainServiceStop": csStop, "stopClosed": closed,
+		"chanMakes": makes, "workerCallbacks": cbNames, "workerCallbackCallees": cbCallees}
 	reportUndischarged(sites, closedSet)
 	fmt.Printf("extract: C17 %d blocking sites in %d files; ChainService.Stop order: %s\n", len(sites), len(stopFiles), strings.Join(csStop, " ; "))
 }
